@@ -103,6 +103,10 @@ def C08unit (u : UnitType) : Bool := checkEnumTables true u
 def C08plain (u : UnitType) : Bool := checkEnumTables false u
 /-- C08: every spelling denotes the magnitude of the enumerator it maps to. -/
 def C08spell (u : UnitType) : Bool := checkSpellings u
+/-- C20: unchecked lookups hit. -/
+def C20lookups (u : UnitType) : Bool := checkLookupsHit unitSystemValues u
+def C20abbr (u : UnitType) : Bool := checkAbbreviationsHit u
+
 /-- C15: a serialisation entry builds exactly the template of its form. -/
 def C15serial (row : Entry × Option Entry) : Bool := Serial.checkSerial classes unitTypes row
 /-- C15: `operator<<` writes what `Print()` returns. -/
